@@ -876,8 +876,8 @@ impl Interp {
                                     if er.stack.is_empty() {
                                         er.pos = (pos.0, er.pos.1);
                                         er.exact = false;
-                                        er.in_slot = true;
                                     }
+                                    er.in_slot = true;
                                     return Err(er);
                                 }
                             };
